@@ -34,6 +34,31 @@ Proof.
   apply stale_in_not_active; [apply fold_winv; assumption|exact H].
 Qed.
 
+(* C01, single-shot: the emission that invokes a single-shot connection makes its id stale - for arbitrary slot bodies and whatever
+   way the emission ends - and (stale_final) it stays stale, inactive and out of every table through every later history *)
+Lemma live_issued m k c : impl_ok m -> g_get (i_conns m) k = Some c -> In k (i_issued m).
+Proof.
+  intros (Hwf & (_ & _ & _ & Hlive) & _) Hc. pose proof (get_slot (i_conns m) k c) as [Hs _]. specialize (Hs Hc).
+  pose proof (wf_slot_alloc _ _ _ _ Hwf Hs) as Ha. specialize (Hlive _ _ Ha eq_refl). cbn in Hlive. rewrite gidx_eta in Hlive. exact Hlive.
+Qed.
+
+Theorem single_shot_stale_after R w s args i k m c l :
+  good R -> winv w -> lookup (w_sigs w) s = Some (Some i) -> get_impl w i = Some m -> i_emitting m = false ->
+  g_get (i_conns m) k = Some c -> c_kind c = KSingle ->
+  w_trace (fst (sig_emit R w s args)) = l ++ w_trace w -> In k (dkeys i l) ->
+  stale_in (fst (sig_emit R w s args)) i k.
+Proof.
+  intros HR Hw Hs Hm Hem Hc Hk Hl Hin.
+  pose proof (sig_emit_ok R HR w s args Hw) as [Hw' L].
+  destruct (wle_impls _ _ _ _ _ L _ _ Hm) as (m' & Hm' & ((li & Hiss) & _) & _).
+  pose proof (emit_single_shot_gone R HR i k w s args m c m' Hw Hs Hm Hem Hc Hk l Hl Hin Hm') as Hgone.
+  exists m'. split; [exact Hm'|].
+  pose proof (Hw' _ _ Hm') as Hok'. pose proof Hok' as (Hwf' & Hfr' & _).
+  assert (Hi : In k (i_issued m')) by (rewrite Hiss; apply in_or_app; right; exact (live_issued m k c (Hw _ _ Hm) Hc)).
+  destruct (issued_live_or_stale _ _ _ Hfr' Hi) as [Hlive|Hst]; [|exact Hst].
+  destruct (isLive_get _ _ Hwf' Hlive) as (v & Hv). congruence.
+Qed.
+
 Theorem stale_not_in_table w i k m :
   winv w -> get_impl w i = Some m -> stale (g_alloc (i_conns m)) k -> g_get (i_conns m) k = None.
 Proof. intros Hw Hm Hs. apply stale_get_none; [apply (Hw _ _ Hm)|exact Hs]. Qed.
@@ -255,6 +280,44 @@ Qed.
 
 (* ---------------------------------------------------------------------------------------------- *)
 (* C19: sizes *)
+
+(* C11, scoped connections: a move transfers the guarded connection to the destination and leaves the source guarding nothing
+   (its later expiry is a no-op); what the destination guarded before is disconnected, exactly as if it had expired *)
+Lemma moved_from_guards_nothing w a : handle_disconnect w (handle_moved_from a) = w.
+Proof. unfold handle_disconnect, checked_lock, handle_moved_from. cbn [h_id h_impl lock]. destruct (h_id a); reflexivity. Qed.
+
+Theorem scoped_move_ctor pf R w src dst a :
+  lookup (w_scoped w) src = Some a -> src <> dst ->
+  exists w', step1 pf R w (OScMoveCtor src dst) = (w', None) /\
+             w_impls w' = w_impls w /\ w_evs w' = w_evs w /\
+             lookup (w_scoped w') dst = Some a /\ lookup (w_scoped w') src = Some (handle_moved_from a) /\
+             handle_disconnect w' (handle_moved_from a) = w'.
+Proof.
+  intros Hs Hne. cbn [step1]. rewrite Hs. eexists; split; [reflexivity|]. cbn [set_scoped w_scoped w_impls w_evs].
+  split; [reflexivity|]. split; [reflexivity|]. split; [apply lookup_bind_same|]. split; [|apply moved_from_guards_nothing].
+  rewrite lookup_bind_other by exact Hne. apply lookup_bind_same.
+Qed.
+
+Theorem scoped_move_assign pf R w src dst a old :
+  lookup (w_scoped w) src = Some a -> lookup (w_scoped w) dst = Some old -> src <> dst ->
+  exists w', step1 pf R w (OScMove src dst) = (w', None) /\
+             w_impls w' = w_impls (handle_disconnect w old) /\ w_evs w' = w_evs (handle_disconnect w old) /\
+             lookup (w_scoped w') dst = Some a /\ lookup (w_scoped w') src = Some (handle_moved_from a).
+Proof.
+  intros Hs Hd Hne. cbn [step1]. rewrite Hs, Hd. destruct (Nat.eqb_spec src dst) as [E|_]; [contradiction|].
+  eexists; split; [reflexivity|]. cbn [set_scoped w_scoped w_impls w_evs].
+  split; [reflexivity|]. split; [reflexivity|]. split; [apply lookup_bind_same|].
+  rewrite lookup_bind_other by exact Hne. apply lookup_bind_same.
+Qed.
+
+(* expiry of a scoped connection = disconnect through its handle *)
+Theorem scoped_expiry pf R w c a :
+  lookup (w_scoped w) c = Some a ->
+  exists w', step1 pf R w (OScDrop c) = (w', None) /\ w_impls w' = w_impls (handle_disconnect w a) /\ lookup (w_scoped w') c = None.
+Proof.
+  intros Hc. cbn [step1]. rewrite Hc. eexists; split; [reflexivity|]. cbn [set_scoped w_scoped w_impls]. split; [reflexivity|].
+  apply lookup_remove_same.
+Qed.
 
 Lemma slot_entries_length {T} (sl : list (option (N * T))) idxs :
   length (slot_entries sl idxs) = length (filter (fun i => match nth_error sl i with Some (Some _) => true | _ => false end) idxs).
